@@ -34,6 +34,18 @@
 //   restart        read (or not), close the listener and its connections,
 //                  listen again after d ms
 //   killall        close every listener and connection, start one after d
+//   close-partial  (big-request cases: 40-200 kB bodies, nng's sends cut to
+//                  <= 8 kB by the interposer) close a connection on which a
+//                  request frame is only partly read
+// RESENDTIME 10 s is "finite but beyond every bound": there the reply must
+// come within RECONNMAXT + 2 s of the loss, which only the immediate
+// re-queue in req0_pipe_close can achieve (a timer rescue is a miss).  In
+// "mixed" sampled cases each context has its own RESENDTIME (nng_ctx_set_ms /
+// socket option changed after the contexts were opened), re-drawn between
+// exchanges; every oracle uses the value in force when the request was sent.
+// The first timer retransmission on a surviving connection must not be later
+// than RESENDTIME + tick + 500 ms - by the wall clock and by a chain of 10 ms
+// nng_sleep_aio ticks, with no harness thread stalled, twice (re-run).
 // Mode "enum" enumerates every single-step plan x variant x RESENDTIME x
 // transport x {1 ctx, 3 ctx + 2 repliers}; mode "sampled" draws plans.
 //
@@ -77,11 +89,18 @@
 #define RECONN_MAX 20
 #define LONG_RETRY_MS 10000 // finite, but far beyond every bound: only the re-queue on pipe loss can rescue
 #define LATE_SLACK_MS 500
+#if defined(__SANITIZE_THREAD__)
+#define BIG_MIN 20000
+#define BIG_SPAN 40000
+#else
+#define BIG_MIN 40000
+#define BIG_SPAN 160000
+#endif
 #define STALL_MS 100
 
-enum { F_IOFAULT, F_CLOSE_ACCEPT, F_CLOSE_UNREAD, F_CLOSE_READ, F_CLOSE_HALF, F_CLOSE_REPLIED, F_DROP, F_DELAY, F_RESTART, F_KILLALL, F_N };
-static const char *fname[F_N] = { "iofault", "close-accept", "close-unread", "close-read", "close-half", "close-replied", "drop", "delay", "restart", "killall" };
-static const char  fletter[F_N + 1] = "IAURHPDLSK";
+enum { F_IOFAULT, F_CLOSE_ACCEPT, F_CLOSE_UNREAD, F_CLOSE_READ, F_CLOSE_HALF, F_CLOSE_REPLIED, F_DROP, F_DELAY, F_RESTART, F_KILLALL, F_CLOSE_PARTIAL, F_N };
+static const char *fname[F_N] = { "iofault", "close-accept", "close-unread", "close-read", "close-half", "close-replied", "drop", "delay", "restart", "killall", "close-partial" };
+static const char  fletter[F_N + 1] = "IAURHPDLSKW";
 
 enum { OP_NORMAL, OP_LATE, OP_TIMEOUT, OP_CANCEL, OP_REPLACE, OP_N };
 static const char *opname[OP_N] = { "normal", "late-recv", "timeout", "cancel", "replace" };
@@ -112,6 +131,7 @@ typedef struct {
 	int      nrep, nctx;
 	bool     use_sock;
 	int      retry_ms; // -1: infinite; the socket's value when the contexts are opened
+	bool     big; // 40-200 kB requests, nng's sends are cut into chunks <= 8 kB (needed for close-partial)
 	bool     mixed; // contexts get their own values (nng_ctx_set_ms), changed between exchanges
 	int      tick_ms;
 	int      nsteps;
@@ -132,7 +152,11 @@ typedef struct {
 	int      wire; // sightings
 	int      retry_ms; // resend time of its context when it was sent
 	uint64_t t_first_wire;
+	long     ref_first; // library-timed reference ticks at the first sighting
 	int      last_conn;
+	bool     nopipe; // submitted while the socket had no pipe
+	bool     timer_retx; // a copy arrived while the previous copy's connection was still there
+	int      partial; // times a connection was closed on a partly read copy
 	bool     replied; // a complete reply to it was written somewhere
 	uint64_t t_issue, t_last_wire;
 	int      state;
@@ -150,8 +174,10 @@ typedef struct {
 	bool     doomed; // scheduled close pending: requests are ignored
 	bool     close_completes_step;
 	uint64_t close_at;
+	bool     exempt_partial; // a frame was partly read when the last fence was taken
+	int      partial_chances;
 	size_t   rxlen;
-	uint8_t  rx[8192];
+	uint8_t  rx[262144];
 } conn;
 
 typedef struct {
@@ -205,6 +231,7 @@ static struct {
 	atomic_bool      plan_done;
 	_Atomic uint64_t fence_req, fence_ack;
 	atomic_int       npipes;
+	bool             sweep_truncated; // some socket was not read to the end in this sweep
 	_Atomic unsigned char myport[65536]; // local tcp ports of this socket's pipes
 	// verdict plumbing
 	atomic_bool      abort;
@@ -267,6 +294,25 @@ bound_ns(int retry_ms)
 // load witness: the time a harness thread last overslept by more than
 // STALL_MS (heartbeat thread and the adversary's own poll loop)
 static _Atomic uint64_t stall_last_ns;
+
+// reference clock driven by the library's own timer service: a chain of
+// REF_TICK_MS sleeps.  Under load it runs slow together with the resend
+// timer, so latencies counted in its ticks are under-estimated.
+#define REF_TICK_MS 10
+static _Atomic long refticks;
+static nng_aio     *ref_aio;
+static atomic_bool  ref_stop;
+
+static void
+ref_cb(void *arg)
+{
+	(void) arg;
+	if (nng_aio_result(ref_aio) != 0 || atomic_load(&ref_stop)) {
+		return;
+	}
+	atomic_fetch_add(&refticks, 1);
+	nng_sleep_aio(REF_TICK_MS, ref_aio);
+}
 
 static void
 stall_check(uint64_t *last, uint64_t expect_ns)
@@ -566,13 +612,19 @@ on_frame(conn *c, const uint8_t *p, size_t plen)
 	}
 	xrec *x  = &G.x[xi];
 	int   xr = x->retry_ms;
-	{
-		uint8_t want[VF_BODY_MIN + 512];
+	if (x->len < 4096 || x->wire < 2) {
+		// (later copies of big bodies are covered by the crc in vf_body_check)
+		uint8_t *want = malloc(x->len);
 		vf_body_make(want, x->len, x_tag(xi), x_seq(xi));
 		if (memcmp(want, p + 4, x->len) != 0) {
 			vf_violation("C12/retransmit/body-differs", "transmission %d of request %d (ctx %d): body differs from the original", x->wire + 1, xi, x->ctx);
 		}
+		free(want);
 	}
+	// a frame that was already partly read when the last fence was taken is
+	// "in flight", not a new transmission
+	bool exempt       = c->exempt_partial;
+	c->exempt_partial = false;
 	if (x->id == 0) {
 		x->id = id;
 	} else if (x->id != id) {
@@ -581,6 +633,7 @@ on_frame(conn *c, const uint8_t *p, size_t plen)
 	x->wire++;
 	if (x->wire == 1) {
 		x->t_first_wire = now;
+		x->ref_first    = atomic_load(&refticks);
 	}
 	if (x->wire > 1) {
 		bool loss = x->last_conn != c->serial && G.serial_closed[x->last_conn];
@@ -592,6 +645,7 @@ on_frame(conn *c, const uint8_t *p, size_t plen)
 			G.retx_loss++;
 		} else {
 			G.retx_timer++;
+			x->timer_retx = true;
 		}
 		vf_class("retx/%s/%s/after-%s", loss ? "pipe-loss" : "timer", rn(xr), fname[atomic_load(&G.last_fault_kind)]);
 		if (x->wire == 3) {
@@ -601,21 +655,31 @@ on_frame(conn *c, const uint8_t *p, size_t plen)
 			// first timer retransmission while the connection of the first
 			// copy is still there: due RESENDTIME + one tick after the first
 			// copy at the latest (both times are read times here)
+			// late only if it is late by the wall clock AND by the library's
+			// own reference timer chain AND no harness thread stalled
 			long lat = (long) ((now - x->t_first_wire) / 1000000), due = xr + G.c.tick_ms;
+			long lat_ref = (atomic_load(&refticks) - x->ref_first) * REF_TICK_MS;
 			vf_stat("timer_retx_latency_judged", 1);
 			vf_stat_max("timer_retx_latency_over_due_ms_max", lat - due);
-			if (lat > due + LATE_SLACK_MS) {
+			vf_stat_max("timer_retx_reflatency_over_due_ms_max", lat_ref - due);
+			if (lat > due + LATE_SLACK_MS && lat_ref <= due + LATE_SLACK_MS) {
+				vf_stat("timer_retx_late_with_slow_reference", 1);
+			}
+			if (lat > due + LATE_SLACK_MS && lat_ref > due + LATE_SLACK_MS) {
 				if (atomic_load(&stall_last_ns) >= x->t_first_wire) {
 					vf_stat("timer_retx_late_under_load", 1);
 				} else if (!G.late) {
 					G.late = true;
-					snprintf(G.late_desc, sizeof(G.late_desc), "request %d (ctx %d, resend %s, tick %d ms): first copy read, connection kept, second copy read %ld ms later (due within %ld ms; no harness thread stalled more than %d ms meanwhile)", xi,
-					    x->ctx, rn(xr), G.c.tick_ms, lat, due, STALL_MS);
+					snprintf(G.late_desc, sizeof(G.late_desc), "request %d (ctx %d, resend %s, tick %d ms): first copy read, connection kept, second copy read %ld ms later (%ld ms by a chain of %d ms nng sleeps; due within %ld ms; no harness thread stalled more than %d ms meanwhile)", xi,
+					    x->ctx, rn(xr), G.c.tick_ms, lat, lat_ref, REF_TICK_MS, due, STALL_MS);
 				}
 			}
 		}
 	}
-	if (x->fenced) {
+	if (x->fenced && exempt) {
+		vf_stat("fenced_frame_in_flight_at_fence", 1);
+	}
+	if (x->fenced && !exempt) {
 		vf_violation(x->state == X_ANSWERED ? "C12/terminated/retransmitted-after-answered"
 		        : x->state == X_CANCELLED   ? "C12/terminated/retransmitted-after-cancel"
 		        : x->state == X_REPLACED    ? "C12/terminated/retransmitted-after-replace"
@@ -631,7 +695,15 @@ on_frame(conn *c, const uint8_t *p, size_t plen)
 		return;
 	}
 	step *s = cur_step();
-	if (s == NULL || s->kind == F_IOFAULT || s->kind == F_CLOSE_ACCEPT || s->kind == F_CLOSE_UNREAD || (s->kind == F_RESTART && s->var == 1)) {
+	if (s != NULL && s->kind == F_CLOSE_PARTIAL && ++c->partial_chances >= 4) {
+		// four whole frames arrived in one piece on this connection: give up
+		// waiting for a partly read one, lose it after reading
+		vf_stat("close_partial_fallback_whole_frame", 1);
+		conn_close(c, false);
+		step_done();
+		return;
+	}
+	if (s == NULL || s->kind == F_IOFAULT || s->kind == F_CLOSE_ACCEPT || s->kind == F_CLOSE_UNREAD || s->kind == F_CLOSE_PARTIAL || (s->kind == F_RESTART && s->var == 1)) {
 		maybe_stale(c, xi);
 		send_reply(c, id, xi, -1, false);
 		return;
@@ -679,6 +751,11 @@ on_frame(conn *c, const uint8_t *p, size_t plen)
 		step_done();
 		break;
 	case F_RESTART:
+		if (s->var == 2) {
+			// answer first: the requester's NEXT request is then submitted
+			// while nothing is connected
+			send_reply(c, id, xi, -1, false);
+		}
 		do_restart(c->rep, s->d_ms);
 		break;
 	case F_KILLALL:
@@ -704,8 +781,14 @@ conn_readable(conn *c)
 			return;
 		}
 	}
-	for (;;) {
+	for (int reads = 0;; reads++) {
 		if (c->fd < 0) {
+			return;
+		}
+		if (reads >= 8) {
+			// be fair to the other sockets and to the timers; the fence is
+			// only acknowledged by a sweep that read everything
+			G.sweep_truncated = true;
 			return;
 		}
 		if (c->rxlen == sizeof(c->rx)) {
@@ -769,6 +852,23 @@ conn_readable(conn *c)
 			}
 			memmove(c->rx, c->rx + hl + len, c->rxlen - hl - (size_t) len);
 			c->rxlen -= hl + (size_t) len;
+		}
+		step *s2 = cur_step();
+		if (c->fd >= 0 && s2 != NULL && s2->kind == F_CLOSE_PARTIAL && c->rxlen >= hl + 4 + 8) {
+			// an incomplete request frame: the requester is still writing it
+			// (or its tail is in flight).  Lose the connection now.
+			uint32_t tag = get32(c->rx + hl + 4 + 4);
+			int      xi  = (int) (tag & 0xffff);
+			pthread_mutex_lock(&G.mx);
+			if ((tag >> 16) == G.c.nonce && xi < G.nx) {
+				G.x[xi].partial++;
+			}
+			pthread_mutex_unlock(&G.mx);
+			vf_stat("requests_cut_while_partly_read", 1);
+			vf_stat_max("partial_bytes_read_max", (long) c->rxlen);
+			conn_close(c, false);
+			step_done();
+			return;
 		}
 	}
 }
@@ -898,6 +998,7 @@ adversary(void *arg)
 
 		uint64_t      fence = atomic_load(&G.fence_req);
 		struct pollfd pf[MAXREP + MAXCONN];
+		G.sweep_truncated = false;
 		int           who[MAXREP + MAXCONN], n = 0;
 		for (int r = 0; r < G.c.nrep; r++) {
 			if (G.rep[r].lfd >= 0) {
@@ -926,7 +1027,14 @@ adversary(void *arg)
 				}
 			}
 		}
-		atomic_store(&G.fence_ack, fence);
+		for (int i = 0; i < MAXCONN && !G.sweep_truncated; i++) {
+			if (G.cn[i].fd >= 0) {
+				G.cn[i].exempt_partial = G.cn[i].hs_done && G.cn[i].rxlen > 0;
+			}
+		}
+		if (!G.sweep_truncated) {
+			atomic_store(&G.fence_ack, fence);
+		}
 	}
 	vf_io_fail_send_at(0, 0);
 	for (int i = 0; i < MAXCONN; i++) {
@@ -958,7 +1066,7 @@ fence(void)
 	uint64_t me = atomic_fetch_add(&G.fence_req, 1) + 1;
 	while (atomic_load(&G.fence_ack) < me) {
 		vf_usleep(200);
-		if (vf_now_ns() - t0 > ms2ns(5000)) {
+		if (vf_now_ns() - t0 > ms2ns(30000)) {
 			vf_harness_fail("adversary thread does not answer the fence");
 		}
 	}
@@ -1058,7 +1166,7 @@ x_new(rctx *rc, int op, bool final)
 	if (r_timer(rc->retry_ms) && rc->retry_ms > G.max_timer_retry) {
 		G.max_timer_retry = rc->retry_ms;
 	}
-	x->len     = VF_BODY_MIN + (size_t) (vf_mix64(G.c.key ^ (uint64_t) xi * 7919) % 400);
+	x->len     = G.c.big ? BIG_MIN + (size_t) (vf_mix64(G.c.key ^ (uint64_t) xi * 7919) % BIG_SPAN) : VF_BODY_MIN + (size_t) (vf_mix64(G.c.key ^ (uint64_t) xi * 7919) % 400);
 	x->t_issue = vf_now_ns();
 	x->state   = X_OUT;
 	G.nx++; // published under the lock before the frame can reach the wire
@@ -1074,6 +1182,12 @@ issue_send(rctx *rc, int xi)
 		vf_harness_fail("msg alloc");
 	}
 	vf_body_make(nng_msg_body(m), G.x[xi].len, x_tag(xi), x_seq(xi));
+	if (atomic_load(&G.npipes) == 0) {
+		pthread_mutex_lock(&G.mx);
+		G.x[xi].nopipe = true;
+		pthread_mutex_unlock(&G.mx);
+		vf_stat("requests_submitted_with_no_pipe", 1);
+	}
 	nng_aio_set_msg(rc->sa, m);
 	nng_aio_set_timeout(rc->sa, LONG_MS);
 	atomic_store(&rc->sdone, 0);
@@ -1116,6 +1230,14 @@ judge(rctx *rc, int xi, int rv, nng_msg *m, uint64_t t_done)
 		} else {
 			ok = true;
 			vf_stat("replies_verified", 1);
+			if (x->partial > 0) {
+				vf_stat("answered_after_partial_transmission", 1);
+			}
+			if (x->nopipe && x->timer_retx) {
+				// submitted during an outage, first copy lost on a live
+				// connection, rescued by the resend timer
+				vf_stat("nopipe_submit_rescued_by_timer", 1);
+			}
 			if (x->wire > 1) {
 				vf_stat("answered_after_retransmission", 1);
 				if (x->retry_ms == LONG_RETRY_MS) {
@@ -1407,8 +1529,8 @@ run_case(long idx, const casecfg *cfg, bool recheck)
 	for (int i = 0; i < MAXCONN; i++) {
 		G.cn[i].fd = -1;
 	}
-	vf_case_begin(idx, "%s tran=%s resend=%s tick=%d ctx=%d%s rep=%d plan=%s ops=%d stale=%d jit=%d key=%llx%s", cfg->enumerated ? "enum" : "sampled", cfg->tran ? "ipc" : "tcp", cfg->rname, cfg->tick_ms, cfg->nctx,
-	    cfg->use_sock ? "+sock" : "", cfg->nrep, cfg->shape, cfg->ops, cfg->stale, cfg->jit_permille, (unsigned long long) cfg->key, recheck ? " (recheck)" : "");
+	vf_case_begin(idx, "%s tran=%s resend=%s tick=%d ctx=%d%s rep=%d plan=%s ops=%d stale=%d jit=%d big=%d key=%llx%s", cfg->enumerated ? "enum" : "sampled", cfg->tran ? "ipc" : "tcp", cfg->rname, cfg->tick_ms, cfg->nctx,
+	    cfg->use_sock ? "+sock" : "", cfg->nrep, cfg->shape, cfg->ops, cfg->stale, cfg->jit_permille, cfg->big, (unsigned long long) cfg->key, recheck ? " (recheck)" : "");
 	vf_watchdog(90);
 
 	for (int r = 0; r < cfg->nrep; r++) {
@@ -1425,6 +1547,11 @@ run_case(long idx, const casecfg *cfg, bool recheck)
 	if (nng_req0_open(&G.sock) != 0) {
 		vf_harness_fail("req open");
 	}
+	atomic_store(&ref_stop, false);
+	if (nng_aio_alloc(&ref_aio, ref_cb, NULL) != 0) {
+		vf_harness_fail("aio alloc");
+	}
+	nng_sleep_aio(REF_TICK_MS, ref_aio);
 	nng_socket_set_ms(G.sock, NNG_OPT_REQ_RESENDTIME, cfg->retry_ms < 0 ? NNG_DURATION_INFINITE : cfg->retry_ms);
 	nng_socket_set_ms(G.sock, NNG_OPT_REQ_RESENDTICK, cfg->tick_ms);
 	nng_pipe_notify(G.sock, NNG_PIPE_EV_ADD_PRE, pipe_cb, NULL);
@@ -1477,6 +1604,10 @@ run_case(long idx, const casecfg *cfg, bool recheck)
 	if (cfg->jit_permille > 0) {
 		vf_pt_jitter(cfg->key, cfg->jit_permille, cfg->jit_us);
 	}
+	if (cfg->big) {
+		// nng's own sends move at most 8 kB per call from now on
+		vf_io_plan(VF_IO_RANDOM, 8192, VF_IO_FULL, 0, cfg->key);
+	}
 	// the plan starts now (an iofault first step is armed on idle pipes)
 	atomic_store(&G.go, true);
 	while (!atomic_load(&G.started)) {
@@ -1524,6 +1655,7 @@ run_case(long idx, const casecfg *cfg, bool recheck)
 		vf_stat("fenced_terminated_watched", dead);
 	}
 	vf_pt_off();
+	vf_io_plan(VF_IO_FULL, 0, VF_IO_FULL, 0, 0);
 	for (int i = 0; i < cfg->nctx; i++) {
 		nng_aio_stop(rc[i].sa);
 		nng_aio_stop(rc[i].ra);
@@ -1536,6 +1668,12 @@ run_case(long idx, const casecfg *cfg, bool recheck)
 	nng_socket_close(G.sock);
 	atomic_store(&G.stop, true);
 	pthread_join(G.ath, NULL);
+	atomic_store(&ref_stop, true);
+	nng_aio_stop(ref_aio);
+	nng_aio_free(ref_aio);
+	if (G.late) {
+		miss |= 2;
+	}
 
 	if (!miss && !atomic_load(&G.abort)) {
 		// evidence
@@ -1558,6 +1696,9 @@ run_case(long idx, const casecfg *cfg, bool recheck)
 		}
 		if (cfg->use_sock) {
 			vf_stat("cases_with_socket_ctx", 1);
+		}
+		if (cfg->big) {
+			vf_stat("cases_big_requests", 1);
 		}
 		if (r_timer(cfg->retry_ms) && cfg->tick_ms > cfg->retry_ms) {
 			vf_stat("cases_tick_gt_resend", 1);
@@ -1585,7 +1726,7 @@ run_case(long idx, const casecfg *cfg, bool recheck)
 			vf_stat("multi_fault_cases", 1);
 		}
 		if (cfg->enumerated) {
-			vf_class("plan/enum/%s/%s/%s.%d.%d/ctx%d%s", cfg->tran ? "ipc" : "tcp", cfg->rname, fname[cfg->steps[0].kind], cfg->steps[0].var, cfg->steps[0].d_ms, cfg->nctx, cfg->use_sock ? "+sock" : "");
+			vf_class("plan/enum/%s/%s/%s.%d.%d/ctx%d%s", cfg->tran ? "ipc" : "tcp", cfg->rname, fname[cfg->steps[0].kind], cfg->steps[0].var, cfg->nsteps > 1 ? -cfg->steps[1].kind : cfg->steps[0].d_ms, cfg->nctx, cfg->use_sock ? "+sock" : "");
 		} else {
 			vf_class("plan/sampled/%s/%s", cfg->mixed ? "mixed" : cfg->retry_ms < 0 ? "inf" : r_timer(cfg->retry_ms) ? "finite" : "long", cfg->shape);
 		}
@@ -1594,11 +1735,6 @@ run_case(long idx, const casecfg *cfg, bool recheck)
 			    cfg->tran ? "ipc" : "tcp", cfg->rname, cfg->tick_ms, cfg->nctx, cfg->nrep, cfg->shape, cfg->ops, G.nx, G.frames, G.retx_loss, G.retx_timer);
 		}
 	}
-	pthread_mutex_lock(&G.mx);
-	if (G.late) {
-		miss |= 2;
-	}
-	pthread_mutex_unlock(&G.mx);
 	return miss;
 }
 
@@ -1623,7 +1759,7 @@ check_case(long idx, casecfg *cfg)
 			char key[110];
 			// judged by the resend time of the request that missed first
 			snprintf(key, sizeof(key), "C12/%s/%s", r1 < 0 ? "no-retry/no-econnreset-after-loss" : r_timer(r1) ? "bounded-progress/not-answered" : "bounded-progress/not-retransmitted-after-loss",
-			    cfg->nsteps == 1 ? fname[cfg->steps[0].kind] : "multi-fault");
+			    cfg->nsteps == 1 ? fname[cfg->steps[0].kind] : cfg->enumerated ? "outage-then-reply-loss" : "multi-fault");
 			vf_violation(key, "missed twice (bound %ld ms after the last fault). first run: %s; second run: %s", G.miss_bound_ms, first, G.miss_desc);
 		}
 		if ((m1 & 2) && (m2 & 2)) {
@@ -1639,12 +1775,17 @@ static const int resends[5] = { 20, 50, 200, -1, LONG_RETRY_MS };
 typedef struct {
 	int kind, var, d_ms; // d_ms < 0: relative to RESENDTIME (-1: +30, -2: /2)
 	int nrep;
+	int kind2, d2_ms; // optional second step (kind2 > 0)
 } variant;
 
 static const variant variants[] = {
 	{ F_IOFAULT, 1, 0, 1 }, { F_IOFAULT, 2, 0, 1 }, { F_CLOSE_ACCEPT, 0, 0, 1 }, { F_CLOSE_ACCEPT, 1, 0, 1 }, { F_CLOSE_UNREAD, 0, 0, 1 }, { F_CLOSE_READ, 0, 0, 1 }, { F_CLOSE_READ, 0, 30, 1 },
 	{ F_CLOSE_HALF, 0, 0, 1 }, { F_CLOSE_HALF, 1, 0, 1 }, { F_CLOSE_HALF, 2, 0, 1 }, { F_CLOSE_REPLIED, 0, 0, 1 }, { F_DROP, 0, 0, 1 }, { F_DELAY, 0, -1, 1 }, { F_DELAY, 0, -2, 1 },
-	{ F_RESTART, 0, 0, 1 }, { F_RESTART, 0, 30, 1 }, { F_RESTART, 0, 100, 1 }, { F_RESTART, 1, 30, 1 }, { F_KILLALL, 0, 10, 2 }, { F_KILLALL, 1, 60, 2 },
+	{ F_RESTART, 0, 0, 1 }, { F_RESTART, 0, 30, 1 }, { F_RESTART, 0, 100, 1 }, { F_RESTART, 1, 30, 1 }, { F_KILLALL, 0, 10, 2 }, { F_KILLALL, 1, 60, 2 }, { F_CLOSE_PARTIAL, 0, 0, 1 },
+	// two steps: the answer, then an outage during which the next request is
+	// submitted with no pipe, then that request's first copy / reply is lost
+	// on the new connection without the connection going away
+	{ F_RESTART, 2, 100, 1, F_DROP, 0 }, { F_RESTART, 2, 100, 1, F_DELAY, -1 },
 };
 #define NVARIANTS ((int) (sizeof(variants) / sizeof(variants[0])))
 
@@ -1694,6 +1835,12 @@ main(int argc, char **argv)
 						c.nonce      = (uint32_t) (c.key >> 20) & 0xffff;
 						c.nsteps     = 1;
 						c.steps[0]   = (step){ variants[v].kind, variants[v].var, variants[v].d_ms };
+						c.big        = variants[v].kind == F_CLOSE_PARTIAL;
+						if (variants[v].kind2 > 0) {
+							c.nsteps   = 2;
+							c.steps[1] = (step){ variants[v].kind2, 0, variants[v].d2_ms };
+							fix_step(&c.steps[1], c.retry_ms);
+						}
 						fix_step(&c.steps[0], c.retry_ms);
 						check_case(idx, &c);
 						if ((++ran % 24) == 0) {
@@ -1732,10 +1879,21 @@ main(int argc, char **argv)
 				c.jit_permille = (int) vf_range(&r, 10, 50);
 				c.jit_us       = (int) vf_range(&r, 50, 300);
 			}
+			c.big    = vf_chance(&r, 1, 8);
+			if (c.big) {
+				// timer copies of 200 kB every tick from 4 contexts would only
+				// measure the adversary's throughput
+				c.tick_ms = c.tick_ms < 15 ? 15 : c.tick_ms;
+				c.nctx    = c.nctx > 2 ? 2 : c.nctx;
+				c.mixed   = c.mixed && c.nctx > 1;
+			}
 			c.nsteps = 1 + (int) vf_below(&r, c.retry_ms == 200 ? 3 : MAXSTEPS);
 			for (int k = 0; k < c.nsteps; k++) {
 				step *s = &c.steps[k];
-				s->kind = (int) vf_below(&r, F_N);
+				s->kind = (int) vf_below(&r, c.big ? F_N + 2 : F_N - 1);
+				if (s->kind >= F_N) {
+					s->kind = F_CLOSE_PARTIAL;
+				}
 				switch (s->kind) {
 				case F_IOFAULT: s->var = 1 + (int) vf_below(&r, 3); break;
 				case F_CLOSE_ACCEPT: s->var = (int) vf_below(&r, 2); break;
@@ -1743,7 +1901,7 @@ main(int argc, char **argv)
 				case F_CLOSE_HALF: s->var = (int) vf_below(&r, 3); break;
 				case F_DELAY: s->d_ms = !r_timer(c.retry_ms) ? (int) vf_range(&r, 10, 120) : vf_chance(&r, 2, 3) ? c.retry_ms + (int) vf_range(&r, 5, 60) : c.retry_ms / 2; break;
 				case F_RESTART:
-					s->var  = (int) vf_below(&r, 2);
+					s->var  = (int) vf_below(&r, 3);
 					s->d_ms = (int) vf_below(&r, 101);
 					break;
 				case F_KILLALL:
